@@ -26,6 +26,13 @@ def _c08():
 
 
 def run_election_family(ctx, include_f23=False):
+    """Run C08's election scenarios (corpus + generator, incl. forks across an election boundary
+    continued past the next boundary, both arrival orders) on the real NewStatus/bp.Snapshots/
+    GetRankers of ctx's tree and return the producer-set findings as a list of
+    {"key", "what", "replay"}; keys "<ctx.id>:producer-set-not-function-of-chain" and
+    "<ctx.id>:producer-set-differs-after-restart" (the F23 class, same ranking cut at another
+    BPCOUNT, only with include_f23=True as "<ctx.id>:bp-snapshot-bpcount-from-memory").
+    Empty list on an unchanged tree."""
     c08 = _c08()
     eng = os.path.join(vf.HARNESS, "engines/dposlib")
     rc, log, binpath = ctx.go_test_binary(
